@@ -46,6 +46,10 @@ def _buf(l, k, m, f):
     q = k / 4
     return [z3.Length(l) == k % 4] + [z3.Implies(j < k % 4, l[j] == f(acc(m, 4 * q + j + 1))) for j in (0, 1, 2)]
 
+REG.add(Contract(FILE, '_formatRecord', params=[('values', T.List(T.Real))], requires=lambda v: [z3.Length(v.values) == 4], result=T.Text,
+    ensures=lambda v, old, res: [res == tok(REC, v.values[0], v.values[1], v.values[2], v.values[3])], trusted=True,
+    note='one record of four values: the record token of the specification. Its rendering (each value in a field of exactly 15 characters: " % 14.7e", with six decimals when the exponent has three digits) is text formatting and string length, outside the executor; the fixed width is decided by the concrete oracle (records of 60 characters, magnitudes with three-digit exponents included)',
+    props=['C02', 'C17']))
 REG.add(Contract(FILE, '_writePotential',
     params=[('potential', T.Obj('Potential')), ('cutoff', T.Real), ('gridPoints', T.Int), ('meshResolution', T.Real), ('out', T.Doc)],
     requires=lambda v: [v.gridPoints >= 0],
@@ -83,11 +87,11 @@ REG.add(Contract(FILE, 'writePotentials',
     params=[('potentials', T.List(T.Obj('Potential'))), ('cutoff', T.Real), ('gridPoints', T.Int), ('out', T.Doc)],
     requires=lambda v: [v.gridPoints >= 0, v.gridPoints != 4],
     modifies=['out'],
-    ensures=lambda v, old, res: [z3.Or(v.gridPoints % 4 == 0, z3.Length(v.potentials) == 0),
+    ensures=lambda v, old, res: [v.gridPoints % 4 == 0,
                                  v.out == cat(old.out, dlpoly_file(v.potentials, v.cutoff, v.gridPoints))],
     post_names=['only-multiples-of-4-return', 'file'],
     invariants={0: lambda v, old: [v.out == old.out, v.meshResolution == v.cutoff / (real(v.gridPoints) - 4),
-                                   z3.Or(v.gridPoints % 4 == 0, v._i0 == 0),
+                                   v.gridPoints % 4 == 0,
                                    v.outputbuilder == cat(table_header(v.meshResolution, v.cutoff, v.gridPoints),
                                                           blocks(v.potentials, v.gridPoints, v.meshResolution, v._i0))]},
     on_raise=lambda v, old: [v.out == old.out],
